@@ -140,6 +140,18 @@ class Lit:
         self.single = False  # kind 'cell': the literal is one broadcast column (e.g. visited[..., 0:1]) instead of the per-node indicator
         self.params = set()
         self.side_check = None  # optional extra predicate (positive-side atoms, negative-side atoms) -> bool
+        # kind 'cmp': direction in which each cell moves the admit polynomial `big - small`.  Default: cells of `big` +1, cells of
+        # `small` -1 ('locs' stands for travelled distances).  `signs` overrides single cells (divisors, flags, cells on both sides).
+        self.signs = {}
+
+    def expected_signs(self):
+        exp = {k: {+1} for k in self.big}
+        exp.update({k: {-1} for k in self.small})
+        if "locs" in exp:
+            exp["|dist|"] = exp.pop("locs")
+        for k, v in self.signs.items():
+            exp[k] = set(v)
+        return exp
 
 
 def sided_atoms(p: nf.Poly):
